@@ -4,7 +4,7 @@
    compared with what the implementation produced.  Extracted separately from Check/Run.v so that the specification
    checker keeps working when the translated model does not compile. *)
 From Coq Require Import ZArith List Bool Arith.
-From SpadeV Require Import Num.Decode Num.Decode2 Geom.Pred Obs.State Obs.Spec Vmap.Model Dcel.Raw Gen.DcelOps Tri.Legalize Tri.Insert Tri.Locate Tri.InsertLine Obs.LineSpec Tri.LineIter Tri.Remove Tri.AddConstraint Tri.AddSplit Query.NatNeighbor Query.FloodFill Query.FloodFillFloat Check.Codes Check.Run.
+From SpadeV Require Import Num.Decode Num.Decode2 Geom.Pred Obs.State Obs.Spec Vmap.Model Dcel.Raw Gen.DcelOps Tri.Legalize Tri.Insert Tri.Locate Tri.InsertLine Obs.LineSpec Tri.LineIter Tri.Remove Tri.AddConstraint Tri.AddSplit Query.NatNeighbor Query.FloodFill Query.FloodFillFloat Refine.OuterModel Refine.RefineFloat Refine.RefineModel Check.Codes Check.Run.
 From SpadeV Require Num.F64.
 From SpadeV Require Query.Hull Gen.Sizes.
 Import ListNotations.
@@ -698,6 +698,66 @@ Definition check_hull_model (p : obs) (res : list Z) : list (tag * bool) :=
   | _ => []
   end.
 
+(* ---- refine, stage 1 (Refine/OuterModel.v): with exclude_outer_faces and max_additional_vertices = 0 no Steiner point is inserted, the DCEL is
+   unchanged, refinement_complete is false (the budget is exhausted before the first iteration) and the returned excluded faces are the
+   `outer_faces` set of calculate_outer_faces on the previous state, as a set (the iteration order of a HashSet is not observable). ---- *)
+Definition check_refine_outer_model (p n : obs) (args res : list Z) : list (tag * bool) :=
+  match args, res with
+  | [_; _; _; maxv; _; excl], complete :: ne :: ex =>
+      if (excl =? 1)%Z && (maxv =? 0)%Z then
+        match calculate_outer_faces (dcel_of_obs p) with
+        | Some l => [(T_corr, set_eqb l (map Z.to_nat ex) && (length ex =? Z.to_nat ne) && (complete =? 0)%Z
+                              && dcel_eqb (dcel_of_obs p) (dcel_of_obs n))]
+        | None => [(T_corr, false)]
+        end
+      else []
+  | _, _ => []
+  end.
+
+
+(* ---- refine, stage 2 (Refine/RefineModel.v): the whole call.  The model is a function of the previous state and the parameters; compared:
+   all four DCEL tables (hence the bit patterns of every Steiner point, the payloads, the constraint flags), the change of num_constraints,
+   refinement_complete, and the excluded faces as a set.  A run in which a `nearest_power_of_two` decision fell into the narrow zone where the
+   platform's log2 decides (RefineFloat.round_log2) is not compared. ---- *)
+Section RefineCheck.
+Variables prec emax : Z.
+Variable Hp : FLX.Prec_gt_0 prec.
+Variable Hm : BinarySingleNaN.Prec_lt_emax prec emax.
+Definition refine_params (args : list Z) : option (rparams prec emax) :=
+  match args with
+  | [ratio; mina; maxa; maxv; keep; excl] =>
+      let area (a : Z) := if (a =? K_dash)%Z then None else Some (of_f64 prec emax Hp Hm (Num.F64.f_of_bits a)) in
+      Some (mkrp prec emax
+                 (if (ratio =? K_dash)%Z then Num.F64.f_of_bits 4607182418800017408 else Num.F64.f_of_bits ratio)
+                 (area mina) (area maxa)
+                 (if (maxv =? K_dash)%Z then None else Some (Z.to_nat maxv))
+                 (keep =? 1)%Z (excl =? 1)%Z)
+  | _ => None
+  end.
+Definition check_refine_model_at (p n : obs) (args res : list Z) : list (tag * bool) :=
+  match refine_params args, res with
+  | Some P, complete :: ne :: ex =>
+      let dd := dcel_of_obs p in
+      let additional := match rp_max_additional _ _ P with Some m => m | None => nV p * 10 end in
+      let lfuel := 64 * (nH p + 6 * additional + 12) + 1000 in
+      let mfuel := 200 * (additional + 5) + 10 * nH p + 1000 in
+      match refine_model prec emax Hp Hm P lfuel mfuel dd with
+      | Some r =>
+          if rr_uncertain r then []
+          else [(T_corr, dcel_eqb (rr_d r) (dcel_of_obs n) && (o_nc n =? o_nc p + rr_nc r)
+                         && Bool.eqb (rr_complete r) (complete =? 1)%Z
+                         && set_eqb (rr_excluded r) (map Z.to_nat ex) && (length ex =? Z.to_nat ne))]
+      | None => [(T_corr, false)]
+      end
+  | _, _ => []
+  end.
+End RefineCheck.
+Definition check_refine_model (f32 : bool) (p n : obs) (args res : list Z) : list (tag * bool) :=
+  if f32 then check_refine_model_at 24 128 Hprec32 Hmax32 p n args res
+  else check_refine_model_at 53 1024 Num.F64.Hprec64 Num.F64.Hmax64 p n args res.
+
+
+
 Fixpoint run_model_steps (c : cfg) (p : obs) (k : nat) (l : list step) : list verdict :=
   match l with
   | [] => []
@@ -759,6 +819,8 @@ Fixpoint run_model_steps (c : cfg) (p : obs) (k : nat) (l : list step) : list ve
               | x :: y :: _ => map (fun r => (k, fst r, snd r)) (check_lrm_model (c_cdt c) p n x y (s_res st))
               | _ => []
               end
+         else if (s_op st =? OP_refine)%Z && negb (existsb (Z.eqb K_skip) (s_res st) || existsb (Z.eqb K_panic) (s_res st) || existsb (Z.eqb K_hang) (s_res st))
+         then map (fun r => (k, fst r, snd r)) (check_refine_outer_model p n (s_args st) (s_res st) ++ check_refine_model (c_f32 c) p n (s_args st) (s_res st))
          else [])
         ++ run_model_steps c n (S k) t
       end
